@@ -123,6 +123,37 @@ impl Gen {
                 }
             }
             "saturate" => self.saturate(r),
+            "iter" => {
+                // every iterator kind, at every prefix length, in many occupancy patterns
+                let x = self.rng.below(100);
+                let k = self.key();
+                let tgt = if self.rng.chance(1, 5) { "b" } else { "a" };
+                if x < 30 {
+                    format!("{} {}", tgt, self.insert(k))
+                } else if x < 45 {
+                    format!("{} remove {}", tgt, k)
+                } else if x < 85 {
+                    let len = r.dump(tgt).items as u64;
+                    let p = match self.rng.below(4) {
+                        0 => 0,
+                        1 => len,
+                        2 => len + 1 + self.rng.below(3),
+                        _ => self.rng.below(len + 1),
+                    };
+                    let v = *self.rng.pick(&["iter", "keys", "values", "iter_mut", "values_mut"]);
+                    format!("{} iter {} {}", tgt, p, v)
+                } else if x < 90 {
+                    format!("{} drain {} 0", tgt, self.rng.below(8))
+                } else if x < 94 {
+                    format!("{} into_iter {}", tgt, self.rng.below(8))
+                } else if x < 96 {
+                    format!("{} with_capacity {}", tgt, self.rng.below(40))
+                } else if x < 98 {
+                    format!("{} clear", tgt)
+                } else {
+                    format!("{} shrink_to_fit", tgt)
+                }
+            }
             "reserve" => {
                 // capacity API under load: boundary-dense reserve / try_reserve / shrink_to
                 let x = self.rng.below(100);
